@@ -461,6 +461,88 @@ func judge(buf []byte, m *blockModel, offs *common.BlockTransactionOffsets) ([]m
 	return mm, st
 }
 
+// completeness is the other direction of judge: every component that exists in
+// the block (per the harness's own parse) must have an entry in the table — a
+// non-zero range; that it is the right range is judge's business — and the
+// per-transaction counts must match. Comp is "missing-entry:<component>" or
+// "spurious-entry:<component>".
+func completeness(buf []byte, m *blockModel, offs *common.BlockTransactionOffsets) []mismatch {
+	var mm []mismatch
+	bad := func(tx int, comp, f string, a ...any) {
+		mm = append(mm, mismatch{comp, tx, fmt.Sprintf(f, a...)})
+	}
+	nonZero := func(r common.ByteRange) bool { return r.Length > 0 || r.Offset > 0 }
+	if len(offs.Transactions) < len(m.Txs) {
+		bad(len(offs.Transactions), "missing-entry:transaction", "%d transaction locations for a block with %d transactions", len(offs.Transactions), len(m.Txs))
+	}
+	for i := range offs.Transactions {
+		if i >= len(m.Txs) {
+			break
+		}
+		loc, tx := &offs.Transactions[i], &m.Txs[i]
+		if !nonZero(loc.Body) {
+			bad(i, "missing-entry:body", "no body range")
+		}
+		if !nonZero(loc.Witness) {
+			bad(i, "missing-entry:witness", "no witness range")
+		}
+		if tx.Aux != nil && !nonZero(loc.Metadata) {
+			o, l := rangeOf(tx.Aux)
+			bad(i, "missing-entry:metadata", "zero Metadata range although the transaction has auxiliary data at [%d,+%d)", o, l)
+		}
+		if tx.HasOutputs && len(loc.Outputs) < len(tx.Outputs) {
+			bad(i, "missing-entry:output", "%d output ranges for %d outputs", len(loc.Outputs), len(tx.Outputs))
+		}
+		sameBytes := func(a, b *xcbor.Node) bool { return bytes.Equal(buf[a.Start:a.End], buf[b.Start:b.End]) }
+		dset := make(map[common.ByteRange]bool, len(loc.Datums))
+		for _, r := range loc.Datums {
+			dset[r] = true
+		}
+		for _, d := range tx.Datums {
+			o, l := rangeOf(d)
+			hit := dset[common.ByteRange{Offset: o, Length: l}]
+			for k := 0; !hit && k < len(tx.Datums); k++ { // a byte-identical twin may hold the entry
+				if e := tx.Datums[k]; e != d && sameBytes(d, e) {
+					eo, el := rangeOf(e)
+					hit = dset[common.ByteRange{Offset: eo, Length: el}]
+				}
+			}
+			if !hit {
+				bad(i, "missing-entry:datum", "no Datums entry for the datum at [%d,+%d) (%d entries for %d datums)", o, l, len(loc.Datums), len(tx.Datums))
+				break
+			}
+		}
+		for k := range tx.Redeemers {
+			if _, ok := loc.Redeemers[common.RedeemerKey{Tag: common.RedeemerTag(k.Tag), Index: uint32(k.Idx)}]; !ok {
+				bad(i, "missing-entry:redeemer", "no Redeemers entry for (%d,%d) (%d entries for %d redeemers)", k.Tag, k.Idx, len(loc.Redeemers), len(tx.Redeemers))
+				break
+			}
+		}
+		if len(loc.Redeemers) > len(tx.Redeemers) {
+			bad(i, "spurious-entry:redeemer", "%d Redeemers entries for %d redeemers", len(loc.Redeemers), len(tx.Redeemers))
+		}
+		sset := make(map[common.ByteRange]bool, len(loc.Scripts))
+		for _, r := range loc.Scripts {
+			sset[r] = true
+		}
+		for _, sc := range tx.Scripts {
+			o, l := rangeOf(sc.N)
+			hit := sset[common.ByteRange{Offset: o, Length: l}]
+			for k := 0; !hit && k < len(tx.Scripts); k++ {
+				if e := tx.Scripts[k]; e.N != sc.N && e.Lang == sc.Lang && sameBytes(sc.N, e.N) {
+					eo, el := rangeOf(e.N)
+					hit = sset[common.ByteRange{Offset: eo, Length: el}]
+				}
+			}
+			if !hit {
+				bad(i, "missing-entry:script", "no Scripts entry for the language-%d script at [%d,+%d) (%d entries for %d scripts)", sc.Lang, o, l, len(loc.Scripts), len(tx.Scripts))
+				break
+			}
+		}
+	}
+	return mm
+}
+
 // helpersAgree checks that the Extract*Cbor helpers return exactly the bytes of
 // the reported ranges (and an error for a range outside the block).
 func helpersAgree(buf []byte, offs *common.BlockTransactionOffsets) string {
@@ -512,7 +594,19 @@ func callAPI(api string, typ uint, buf []byte) (*common.BlockTransactionOffsets,
 func encodingMismatches(mm []mismatch) []mismatch {
 	var out []mismatch
 	for _, x := range mm {
-		if !strings.HasPrefix(x.Comp, "script-key:") && x.Comp != "datum-key" {
+		if !strings.HasPrefix(x.Comp, "script-key:") && x.Comp != "datum-key" &&
+			!strings.HasPrefix(x.Comp, "missing-entry:") && !strings.HasPrefix(x.Comp, "spurious-entry:") {
+			out = append(out, x)
+		}
+	}
+	return out
+}
+
+// keyIdentityOnly keeps the key-identity mismatches (the known Plutus key class).
+func keyIdentityOnly(mm []mismatch) []mismatch {
+	var out []mismatch
+	for _, x := range mm {
+		if strings.HasPrefix(x.Comp, "script-key:") || x.Comp == "datum-key" {
 			out = append(out, x)
 		}
 	}
@@ -592,6 +686,11 @@ func evaluate(typ uint, buf []byte) (*verdict, error) {
 		}
 		holdResult(api, fmt.Sprintf("a %d-byte type-%d block", len(buf), typ), offs)
 		v.MM[api], v.St[api] = judge(buf, m, offs)
+		if !(api == "streaming" && m.Layout == layDijkstra) {
+			// (the streaming decoder reports no transactions at all for the
+			// 2-element Dijkstra block: documented gap, counted, not judged)
+			v.MM[api] = append(v.MM[api], completeness(buf, m, offs)...)
+		}
 		v.Helper[api] = helpersAgree(buf, offs)
 		if deep && v.Hist[api] == "" {
 			priv := append([]byte(nil), buf...)
@@ -711,12 +810,12 @@ func sweepBases() []baseBlock {
 
 func TestC07(t *testing.T) {
 	rec := evi.New(t, "C07", evi.Exploration,
-		"blocks = the real blocks of every era plus blocks generated from them (1..258 transactions drawn from the era's real transactions, output lists resized to 1..26, synthesised datums / redeemers (array and map form) / native and Plutus scripts / auxiliary data / invalid lists; Dijkstra from the cardano-ledger Dijkstra tx and Conway txs); each is re-encoded with a style plan over the containers of the layout (block, header, bodies/witnesses/aux/invalid, Byron body/payload/pair/tx, Dijkstra body/txs/tx, body map and keys, outputs array, outputs, witness map and keys, script/datum/redeemer collections and their items, tag-258 set wrappers, any other node) with non-minimal 1/2/4/8-byte heads or indefinite length, the header commitment is recomputed, and only re-encodings the era decoder accepts WITH body validation are judged; oracle = xcbor's own byte range of each component in the re-encoded bytes vs every range reported by NewBlockFromCborWithOffsets and ExtractTransactionOffsets (+ Extract*Cbor helpers); special values: 1/23/24/255/256/257 transactions, a body / witness set / aux item of exactly 23, 24, 255, 256, 65535, 65536 bytes (or > 64 KiB by repetition), the EBB, reversed map key order, duplicated redeemer / aux keys, aux entries keyed index+256 / +65536 / +2^32 / 65535 / 2^32-1, unsorted / duplicate / out-of-range invalid lists; purity: every call is made on one shared input buffer that is overwritten after the call, tables returned earlier must not change, a repeated call gives the same table, a failed (truncated / garbled) call returns no table and does not influence the next one, and every real block plus same-header and same-body siblings give the same table forwards, backwards and interleaved across eras; non-trivial = accepted, >=1 head differs from the original and >=1 range was reported; distinct by (block description, plan)")
+		"blocks = the real blocks of every era plus blocks generated from them (1..258 transactions drawn from the era's real transactions, output lists resized to 1..26, synthesised datums / redeemers (array and map form) / native and Plutus scripts / auxiliary data / invalid lists; Dijkstra from the cardano-ledger Dijkstra tx and Conway txs); each is re-encoded with a style plan over the containers of the layout (block, header, bodies/witnesses/aux/invalid, Byron body/payload/pair/tx, Dijkstra body/txs/tx, body map and keys, outputs array, outputs, witness map and keys, script/datum/redeemer collections and their items, tag-258 set wrappers, any other node) with non-minimal 1/2/4/8-byte heads or indefinite length, the header commitment is recomputed, and only re-encodings the era decoder accepts WITH body validation are judged; oracle = xcbor's own byte range of each component in the re-encoded bytes vs every range reported by NewBlockFromCborWithOffsets and ExtractTransactionOffsets (+ Extract*Cbor helpers); special values: 1/23/24/255/256/257 transactions, a body / witness set / aux item of exactly 23, 24, 255, 256, 65535, 65536 bytes (or > 64 KiB by repetition), the EBB, reversed map key order, duplicated redeemer / aux keys, aux entries keyed index+256 / +65536 / +2^32 / 65535 / 2^32-1, unsorted / duplicate / out-of-range invalid lists; purity: every call is made on one shared input buffer that is overwritten after the call, tables returned earlier must not change, a repeated call gives the same table, a failed (truncated / garbled) call returns no table and does not influence the next one, and every real block plus same-header and same-body siblings give the same table forwards, backwards and interleaved across eras; completeness: every component the harness finds in the block (transaction, body, witness set, aux data, each output, each datum / redeemer / script of the witness set) must have an entry (missing-entry:<component>), no more redeemer entries than redeemers; non-trivial = accepted, >=1 head differs from the original and >=1 range was reported; distinct by (block description, plan)")
 	defer rec.Finish()
 	rec.Assume(
 		"xcbor (independent RFC 8949 parser, round-trip tested) defines the byte range of a component",
 		"blake2b from golang.org/x/crypto is trusted",
-		"a ByteRange{0,0} means 'not reported'; a reported Metadata range for a transaction without auxiliary data, or an Outputs entry beyond the transaction's outputs, is a wrong report",
+		"a ByteRange{0,0} means 'no entry': for a component that exists it is an omission (missing-entry), except that the streaming decoder reports no transactions at all for Dijkstra blocks (documented gap, counted); a reported Metadata range for a transaction without auxiliary data, or an Outputs entry beyond the transaction's outputs, is a wrong report",
 		"the Datums/Scripts maps are documented as hash -> location: a datum key must be blake2b-256 of the datum bytes, a script key blake2b-224(language byte ‖ script) with script = content of the byte string for Plutus and the CBOR item for native scripts (Cardano script hash); key-identity failures are reported under their own keys, separate from range failures",
 	)
 
@@ -738,12 +837,25 @@ func TestC07(t *testing.T) {
 			// key-identity mismatches do not depend on the encoding plan: own keys
 			var rest []mismatch
 			keyed := map[string][]mismatch{}
+			gaps := map[string][]mismatch{}
 			for _, x := range v.MM[api] {
 				if strings.HasPrefix(x.Comp, "script-key:") || x.Comp == "datum-key" {
 					keyed[x.Comp] = append(keyed[x.Comp], x)
+				} else if strings.HasPrefix(x.Comp, "missing-entry:") || strings.HasPrefix(x.Comp, "spurious-entry:") {
+					gaps[x.Comp] = append(gaps[x.Comp], x)
 				} else {
 					rest = append(rest, x)
 				}
+			}
+			gk := make([]string, 0, len(gaps))
+			for k := range gaps {
+				gk = append(gk, k)
+			}
+			sort.Strings(gk)
+			for _, k := range gk {
+				fail(fmt.Sprintf("C07:%s:%s:%s", lay, api, k),
+					fmt.Sprintf("%s offsets of %s block %q re-encoded with [%s]: the table does not have exactly the components of the block: %s", api, lay, b.Name, editsString(plan), summarize(gaps[k])),
+					map[string]any{"block": b.Name, "type": b.Type, "plan": editsString(plan), "api": api, "block_hex": evi.Hex(buf), "block_len": len(buf)})
 			}
 			kk := make([]string, 0, len(keyed))
 			for k := range keyed {
@@ -882,7 +994,7 @@ func TestC07(t *testing.T) {
 							c.Rejected++
 						case v.Err[api] != "":
 							c.ApiErr++
-						case len(encodingMismatches(v.MM[api])) > 0 || v.Helper[api] != "" || v.Hist[api] != "":
+						case len(v.MM[api]) > len(keyIdentityOnly(v.MM[api])) || v.Helper[api] != "" || v.Hist[api] != "":
 							c.Fail++
 						default:
 							c.Pass++
